@@ -113,6 +113,16 @@ def apply(f, kind, op, ids):
     elif name == "data":
         f.data = new_data(kind, a[0])
         ids.clear()            # raw data / a new container: the fit now holds a new container and a new parametric model (their sources are gone)
+    elif name == "failed_fit":          # a minimisation that raises (nothing left to fit): afterwards the fit is configured as before
+        free = [n_ for n_ in p if n_ not in f._fitter.fixed_parameters]
+        for n_ in free:
+            f.fix_parameter(n_)
+        try:
+            f.do_fit()
+        except RuntimeError:
+            pass
+        for n_ in free:
+            f.release_parameter(n_)
     elif name == "fit":
         f.do_fit()
     else:
@@ -251,7 +261,8 @@ def gen(tier, seed):
         core = [(("fix", 1, 1.0), ("release", 1)), (("limit", 0), ("fix", 0, None), ("release", 0)), (("fix", 1, 1.0), ("fit",), ("release", 1), ("fit",)), (("limit", 0), ("unlimit", 0)), (("fit",), ("set_all", 0.8)), (("fit",), ("constraint", 0)), (("fit",), ("data", 1)), (("fit",), ("limit", 0)), (("fit",), ("fix", 0, None)), (("constraint", 0), ("fit",)), (("fit",), ("fit",)), (("data", 1), ("fit",), ("set", 1, 0.5))]
         if kind != "unbinned":
             rel = ("add", True, "model", 0, ax_)
-            core += [(rel, ("fit",), ("set_all", 0.8)), (rel, ("fit",), ("add", False, "data", 0.5, ax_)), (rel, ("fit",), ("set", 0, 1.0), ("fit",)), (rel, ("fit",), ("disable", 1)), (("fit",), ("add", False, "data", 0.5, ax_)), (("fit",), ("add_matrix",)),
+            core += [(("failed_fit",), ("add", False, "model", 0, ax_)), (rel, ("failed_fit",), ("add", False, "model", 0, ax_), ("set_all", 0.8)), (rel, ("failed_fit",), ("set", 0, 1.0)),
+                     (rel, ("fit",), ("set_all", 0.8)), (rel, ("fit",), ("add", False, "data", 0.5, ax_)), (rel, ("fit",), ("set", 0, 1.0), ("fit",)), (rel, ("fit",), ("disable", 1)), (("fit",), ("add", False, "data", 0.5, ax_)), (("fit",), ("add_matrix",)),
                      (rel, ("set_all", 0.8), ("fit",), ("constraint", 0))]
         if kind == "xy":
             core += [(("add", False, "data", 0, "x"), ("fit",), ("set_all", 0.8)), (("add", False, "data", 0, "x"), ("add", True, "model", 0, "y"), ("fit",), ("set", 0, 1.0))]
